@@ -1,5 +1,6 @@
 import MakoModel.Lexer.Model
 import MakoModel.PyExpr.Ws
+import MakoModel.Generated.ErrPos
 /-!
 # ErrPos – where compile-time errors are reported (model for C11)
 
@@ -339,12 +340,15 @@ inductive Path
   | file         -- `Template(filename=f)`                            → `_compile_from_file` → `_compile_text`
   | lookup       -- `TemplateLookup.get_template(uri)` → `_load`      → `Template(uri=…, filename=f, lookup=…)`
   | moduleDir    -- `module_directory=` / `module_filename=`          → `_compile_module_file`
+  | reload (modules : Bool)   -- a lookup that has already served the file finds it newer:
+                 -- `get_template` → `_check` → `_load` → `Template(...)` (with or without `module_directory`)
   deriving DecidableEq, Repr
 
 /-- the arguments with which each path calls `_compile`: the decoded text and the file name are the caller's,
     `uri` and the magic-comment flag differ per path -/
 def Path.magic : Path → Bool
   | .moduleDir => true
+  | .reload m => m
   | _ => false
 
 /-- the exception a construction path ends with, for decoded text `text` of a file called `filename`;
@@ -352,5 +356,34 @@ def Path.magic : Path → Bool
 def constructError (cfg : Cfg) (ck : Checks) (path : Path) (text : Str) (filename : Option Str) (uri : Str) :
     Option ExcFields :=
   compileError cfg ck text filename uri path.magic
+
+/-- what the caller of a construction path sees -/
+inductive Raised
+  | compileError (e : ExcFields)      -- the SyntaxException / CompileException itself
+  | converted                         -- some other exception without the template's coordinates
+                                      -- (`TemplateLookupException("Can't locate template for uri …")`)
+  deriving DecidableEq, Repr
+
+/-- does `except <name>` catch a `SyntaxException` / `CompileException`?  (their classes and base classes) -/
+def catchesCompileError (handler : String) : Bool :=
+  handler == "BaseException" || handler == "Exception" || handler == "MakoException"
+    || handler == "SyntaxException" || handler == "CompileException"
+
+/-- `TemplateLookup._check` around the reload: `handlers` = the exception classes its `except` clauses convert into
+    `TemplateLookupException`, `reraises` = `_load`'s own handler ends with a bare `raise` -/
+def throughCheck (handlers : List String) (reraises : Bool) (e : ExcFields) : Raised :=
+  if reraises && !(handlers.any catchesCompileError) then .compileError e else .converted
+
+/-- the exception a caller sees, per path, for given `_check` handlers -/
+def constructOutcomeWith (handlers : List String) (reraises : Bool) (cfg : Cfg) (ck : Checks) (path : Path)
+    (text : Str) (filename : Option Str) (uri : Str) : Option Raised :=
+  match path with
+  | .reload _ => (constructError cfg ck path text filename uri).map (throughCheck handlers reraises)
+  | _ => (constructError cfg ck path text filename uri).map .compileError
+
+/-- … for the code in /repo (handlers regenerated from `mako/lookup.py`) -/
+def constructOutcome (cfg : Cfg) (ck : Checks) (path : Path) (text : Str) (filename : Option Str) (uri : Str) :
+    Option Raised :=
+  constructOutcomeWith Generated.ErrPos.checkConverts Generated.ErrPos.loadReraises cfg ck path text filename uri
 
 end MakoModel.ErrPos
